@@ -71,7 +71,7 @@ private def mk (name : Bytes) (m : Method) (prompt : Bool) (ncmds : Nat) : Task 
     prompt, dir := none, cmds := List.replicate ncmds ⟨[], none, false⟩ }
 private def pj (ts : List Task) : Proj := { base := [(0, [97])], dirOf := [], dirLen := [], tasks := ts }
 private def w0 : Step := .op (.write 0 [1] 5)
-private def env (n : Nat) : Env := ⟨n, true, none, none, false, true⟩
+private def env (n : Nat) : Env := ⟨n, true, none, none, false, true, false⟩
 private def run (i n : Nat) : Step := .inv i .run (env n)
 
 /-- a history after which task `i` is skipped although `goodRun` fails -/
@@ -580,6 +580,58 @@ theorem C04_sibling_cancelled_not_bad :
      (runHist Cfg.fixed hId (pj [tt]) hist State.empty).1.marks = [] ∧
      (invoke Cfg.fixed hId (pj [tt]) 0 .run (env 99) (runHist Cfg.fixed hId (pj [tt]) hist State.empty).1).2.skipped = false) := by
   decide
+
+/-! ## Two activations of one task in one invocation (`Env.twin`, open finding) -/
+
+/-- the property for a second activation: it is reported up to date only if `goodRun` holds of the
+state the invocation started from -/
+def C04_concurrent : Prop :=
+  ∀ (H : Hashes) (pr : Proj) (hist : List Step) (i : Nat) (t : Task) (e : Env),
+    pr.tasks[i]? = some t → t.sources.isEmpty = false →
+    twinUp H pr i e (runHist Cfg.fixed H pr hist State.empty).1 = true →
+    goodRun H pr i t (runHist Cfg.fixed H pr hist State.empty).1 = true
+
+/-- **(open, the root of the kill finding without any kill)** the task has never run; it is activated
+twice in one invocation: the first activation's check records the fingerprint and its commands start
+— and the second activation, checking meanwhile, is reported UP TO DATE (both methods) -/
+theorem C04_counterexample_concurrent :
+    let e : Env := { env 10 with twin := true }
+    (let t := mk [120] .checksum false 2
+     let s := (runHist Cfg.fixed hId (pj [t]) [w0] State.empty).1
+     twinUp hId (pj [t]) 0 e s = true ∧ goodRun hId (pj [t]) 0 t s = false ∧
+     (invoke Cfg.fixed hId (pj [t]) 0 .run e s).2.ran = [0, 1] ∧ (invoke Cfg.fixed hId (pj [t]) 0 .run e s).2.skipped = false) ∧
+    (let t := mk [120] .timestamp false 2
+     let s := (runHist Cfg.fixed hId (pj [t]) [w0] State.empty).1
+     twinUp hId (pj [t]) 0 e s = true ∧ goodRun hId (pj [t]) 0 t s = false) := by decide
+
+theorem C04_concurrent_false : ¬ C04_concurrent := by
+  intro h
+  have hc := C04_counterexample_concurrent.1
+  have := h hId (pj [mk [120] .checksum false 2]) [w0] 0 _ { env 10 with twin := true } rfl (by decide) hc.1
+  rw [hc.2.1] at this
+  cases this
+
+/-- **why** (method checksum): the first activation's non-dry check leaves the present fingerprint in
+the store (`sumCheck_stored`), so a second check on that state — files untouched: the first is still
+inside its first command — finds it: for a task without `status:` and `generates:` the second
+activation is reported up to date WHENEVER the first one runs. -/
+theorem C04_concurrent_root {i : Nat} {t : Task} (ht : pr.tasks[i]? = some t) (hcs : Cs t)
+    (hst : t.status.isEmpty = true) (hgen : t.generates = []) (e : Env) (s : State) (htw : e.twin = true)
+    (hg : e.gset = true) (hp : t.prompt = false ∨ e.yes = true) (hcm : t.cmds ≠ [])
+    (hno : (isUpToDate H pr t false e.now s).2 = false) :
+    twinUp H pr i e s = true := by
+  have hcond : (t.prompt && !e.yes) = false := by rcases hp with h | h <;> simp [h]
+  have hce : checkErr t e s.files = false := checkErr_gset t e s.files hg
+  have hne : t.cmds.isEmpty = false := by cases hc : t.cmds with | nil => exact absurd hc hcm | cons _ _ => rfl
+  have hstored : aget (isUpToDate H pr t false e.now s).1.sums (sumKey t) = some (fpNow H pr t s.files) :=
+    (isUpToDate_effect H pr t e.now s).2.2.2.1 hcs
+  have hfiles : (isUpToDate H pr t false e.now s).1.files = s.files := (isUpToDate_effect H pr t e.now s).2.1
+  have h2 : (isUpToDate H pr t false e.now (isUpToDate H pr t false e.now s).1).2 = true := by
+    rw [isUpToDate_sources H pr hcs.2]
+    simp only [srcCheck, hcs.1, sumCheck_result, hfiles, hstored, hst, if_true, decide_true, Bool.and_true]
+    simp [gensOk, hgen]
+  simp only [twinUp, ht, htw, hce, hno, hcond, hne, h2]
+  simp
 
 /-! ## An error of the up-to-date check (F8D) -/
 
